@@ -261,6 +261,15 @@ def sample(typ, salt=1):
     if k == "struct":
         out = {}
         for i, f in enumerate(typ.fields):
+            req = getattr(f, "requires", None)
+            if req is not None:
+                class _V:
+                    pass
+                o = _V()
+                o.__dict__.update(out)
+                if not req(o):
+                    out[f.name] = None
+                    continue
             out[f.name] = sample(f.type, salt + i)
         return out
     raise CodecError(k)
